@@ -2057,13 +2057,23 @@ FINALIZE:
 }
 
 func (query *Query) execAndPostProcess() (result any, err error) {
+	// the post-processors that are pending from the build (derived tables, join sides)
+	pending := len(query.postProcessors)
 	rs, err := query.exec()
 	// the calls that were launched are awaited on the error path as well
 	query.wg.Wait()
 	if err != nil {
+		// the rows of the failed run are never handed out: their post-processors go with them
+		if len(query.postProcessors) > pending {
+			query.postProcessors = query.postProcessors[:pending]
+		}
 		return nil, err
 	}
-	for _, postProcessor := range query.postProcessors {
+	// every post-processor runs once: the rows it writes to belong to the caller as
+	// soon as they are returned, a later execution must not write to them again
+	postProcessors := query.postProcessors
+	query.postProcessors = make([]func() error, 0)
+	for _, postProcessor := range postProcessors {
 		err := postProcessor()
 		if err != nil {
 			return nil, err
